@@ -8,7 +8,7 @@ import warnings
 
 from . import pyxfront
 from .normalize import canonicalise
-from .inline import inline_new_helpers
+from .inline import inline_new_helpers, scan_method_names
 from .report import Undecided
 
 
@@ -120,6 +120,7 @@ class Model:
         pkg_root = os.path.join(self.src_root, 'gambit')
         if not os.path.isdir(pkg_root):
             raise Undecided(f'package source not found at {pkg_root}')
+        scan_method_names(pkg_root)      # overridable (multiply defined) methods are not expanded through self. / cls.
         for dirpath, dirnames, filenames in os.walk(pkg_root):
             dirnames[:] = sorted(d for d in dirnames if d != '__pycache__')
             for fn in sorted(filenames):
